@@ -49,3 +49,14 @@ if '--write-names' in sys.argv:
 json.dump({k: {'sig': sigs[k]['sig'], 'fp': sorted(sigs[k]['fp'])} for k in sorted(sigs)},
           open(os.path.join(HERE, 'rules', 'known_sigs.json'), 'w'), indent=0)
 print('known_sigs.json written (%d entries)' % len(sigs))
+# reference field tables: adt -> variant -> [(field name, type)] for the crate's own types
+fields = {}
+for cfg in ('base', 'wire'):
+    raw = export.export(cfg)
+    for a in raw['adts']:
+        n = strip_generics(a['name'])
+        if n.startswith(('core::', 'alloc::', 'std::', 'bytes::', 'rand', 'serde', 'bincode', 'postcard')):
+            continue
+        fields.setdefault(n, {v['name']: [[f['name'], strip_generics(f['ty'])] for f in v['fields']] for v in a['variants']})
+json.dump(fields, open(os.path.join(HERE, 'rules', 'known_fields.json'), 'w'), indent=0, sort_keys=True)
+print('known_fields.json written (%d types)' % len(fields))
